@@ -487,12 +487,47 @@ static bool has_flonum(Type *ty, int lo, int hi, int offset) {
   return offset < lo || hi <= offset || ty->kind == TY_FLOAT || ty->kind == TY_DOUBLE;
 }
 
-static bool has_flonum1(Type *ty) {
-  return has_flonum(ty, 0, 8, 0);
+// True if some member of `ty` lies in the byte range [lo, hi). An
+// eightbyte without any member - alignment padding, or the unnamed
+// bit-fields of a struct - has class NO_CLASS.
+static bool has_member(Type *ty, int lo, int hi, int offset) {
+  if (ty->kind == TY_STRUCT || ty->kind == TY_UNION) {
+    for (Member *mem = ty->members; mem; mem = mem->next) {
+      if (mem->is_bitfield && !mem->name && ty->kind == TY_STRUCT)
+        continue;
+      if (has_member(mem->ty, lo, hi, offset + mem->offset))
+        return true;
+    }
+    return false;
+  }
+
+  if (ty->kind == TY_ARRAY) {
+    for (int i = 0; i < ty->array_len; i++)
+      if (has_member(ty->base, lo, hi, offset + ty->base->size * i))
+        return true;
+    return false;
+  }
+
+  return lo <= offset && offset < hi;
 }
 
-static bool has_flonum2(Type *ty) {
-  return has_flonum(ty, 8, 16, 0);
+// The class of the n-th eightbyte of a small aggregate: it is passed in
+// an SSE register, in a general purpose register, or not at all.
+enum { CLASS_NONE, CLASS_INT, CLASS_SSE };
+
+static int eightbyte_class(Type *ty, int n) {
+  if (ty->size <= n * 8 || !has_member(ty, n * 8, n * 8 + 8, 0))
+    return CLASS_NONE;
+  return has_flonum(ty, n * 8, n * 8 + 8, 0) ? CLASS_SSE : CLASS_INT;
+}
+
+// Number of SSE and of general purpose registers a small aggregate takes.
+static int sse_regs(Type *ty) {
+  return (eightbyte_class(ty, 0) == CLASS_SSE) + (eightbyte_class(ty, 1) == CLASS_SSE);
+}
+
+static int gp_regs(Type *ty) {
+  return (eightbyte_class(ty, 0) == CLASS_INT) + (eightbyte_class(ty, 1) == CLASS_INT);
 }
 
 // True if some scalar in `ty`, placed at `offset`, is not aligned to
@@ -619,14 +654,9 @@ static int push_args(Node *node) {
         arg->pass_by_stack = true;
         stack = stack_arg_slots(arg, stack);
       } else {
-        bool two = ty->size > 8;
-        bool fp1 = has_flonum1(ty);
-        bool fp2 = two && has_flonum2(ty);
-        bool gp2 = two && !has_flonum2(ty);
-
-        if (fp + fp1 + fp2 <= FP_MAX && gp + !fp1 + gp2 <= GP_MAX) {
-          fp = fp + fp1 + fp2;
-          gp = gp + !fp1 + gp2;
+        if (fp + sse_regs(ty) <= FP_MAX && gp + gp_regs(ty) <= GP_MAX) {
+          fp += sse_regs(ty);
+          gp += gp_regs(ty);
         } else {
           arg->pass_by_stack = true;
           stack = stack_arg_slots(arg, stack);
@@ -682,14 +712,14 @@ static void copy_ret_buffer(Obj *var) {
   if (is_empty_aggregate(ty))
     return;
 
-  if (has_flonum1(ty)) {
+  if (eightbyte_class(ty, 0) == CLASS_SSE) {
     assert(ty->size == 4 || 8 <= ty->size);
     if (ty->size == 4)
       println("  movss %%xmm0, %d(%%rbp)", var->offset);
     else
       println("  movsd %%xmm0, %d(%%rbp)", var->offset);
     fp++;
-  } else {
+  } else if (eightbyte_class(ty, 0) == CLASS_INT) {
     for (int i = 0; i < MIN(8, ty->size); i++) {
       println("  mov %%al, %d(%%rbp)", var->offset + i);
       println("  shr $8, %%rax");
@@ -697,8 +727,8 @@ static void copy_ret_buffer(Obj *var) {
     gp++;
   }
 
-  if (ty->size > 8) {
-    if (has_flonum2(ty)) {
+  if (eightbyte_class(ty, 1) != CLASS_NONE) {
+    if (eightbyte_class(ty, 1) == CLASS_SSE) {
       assert(ty->size == 12 || ty->size == 16);
       if (ty->size == 12)
         println("  movss %%xmm%d, %d(%%rbp)", fp, var->offset + 8);
@@ -724,14 +754,14 @@ static void copy_struct_reg(void) {
 
   println("  mov %%rax, %%rdi");
 
-  if (has_flonum(ty, 0, 8, 0)) {
+  if (eightbyte_class(ty, 0) == CLASS_SSE) {
     assert(ty->size == 4 || 8 <= ty->size);
     if (ty->size == 4)
       println("  movss (%%rdi), %%xmm0");
     else
       println("  movsd (%%rdi), %%xmm0");
     fp++;
-  } else {
+  } else if (eightbyte_class(ty, 0) == CLASS_INT) {
     println("  mov $0, %%rax");
     for (int i = MIN(8, ty->size) - 1; i >= 0; i--) {
       println("  shl $8, %%rax");
@@ -740,8 +770,8 @@ static void copy_struct_reg(void) {
     gp++;
   }
 
-  if (ty->size > 8) {
-    if (has_flonum(ty, 8, 16, 0)) {
+  if (eightbyte_class(ty, 1) != CLASS_NONE) {
+    if (eightbyte_class(ty, 1) == CLASS_SSE) {
       assert(ty->size == 12 || ty->size == 16);
       if (ty->size == 12)
         println("  movss 8(%%rdi), %%xmm%d", fp);
@@ -1038,19 +1068,20 @@ static void gen_expr(Node *node) {
         if (pass_in_memory(ty))
           continue;
 
-        bool fp1 = has_flonum1(ty);
-        bool fp2 = has_flonum2(ty);
-
-        if (fp1)
-          popf(fp++);
-        else
-          pop(argreg64[gp++]);
-
-        if (ty->size > 8) {
-          if (fp2)
+        // The aggregate was pushed as one or two eightbytes. Each goes
+        // to the register of its class; one without a class is dropped.
+        for (int n = 0; n * 8 < ty->size; n++) {
+          switch (eightbyte_class(ty, n)) {
+          case CLASS_SSE:
             popf(fp++);
-          else
+            break;
+          case CLASS_INT:
             pop(argreg64[gp++]);
+            break;
+          default:
+            println("  add $8, %%rsp");
+            depth--;
+          }
         }
         break;
       case TY_FLOAT:
@@ -1513,13 +1544,9 @@ static void assign_lvar_offsets(Obj *prog) {
       case TY_STRUCT:
       case TY_UNION:
         if (!pass_in_memory(ty) && !is_empty_aggregate(ty)) {
-          bool two = ty->size > 8;
-          bool fp1 = has_flonum(ty, 0, 8, 0);
-          bool fp2 = two && has_flonum(ty, 8, 16, 0);
-          bool gp2 = two && !has_flonum(ty, 8, 16, 0);
-          if (fp + fp1 + fp2 <= FP_MAX && gp + !fp1 + gp2 <= GP_MAX) {
-            fp = fp + fp1 + fp2;
-            gp = gp + !fp1 + gp2;
+          if (fp + sse_regs(ty) <= FP_MAX && gp + gp_regs(ty) <= GP_MAX) {
+            fp += sse_regs(ty);
+            gp += gp_regs(ty);
             continue;
           }
         }
@@ -1749,17 +1776,15 @@ static void emit_text(Obj *prog) {
       case TY_STRUCT:
       case TY_UNION:
         assert(!pass_in_memory(ty));
-        if (has_flonum(ty, 0, 8, 0))
+        if (eightbyte_class(ty, 0) == CLASS_SSE)
           store_fp(fp++, var->offset, MIN(8, ty->size));
-        else
+        else if (eightbyte_class(ty, 0) == CLASS_INT)
           store_gp(gp++, var->offset, MIN(8, ty->size));
 
-        if (ty->size > 8) {
-          if (has_flonum(ty, 8, 16, 0))
-            store_fp(fp++, var->offset + 8, ty->size - 8);
-          else
-            store_gp(gp++, var->offset + 8, ty->size - 8);
-        }
+        if (eightbyte_class(ty, 1) == CLASS_SSE)
+          store_fp(fp++, var->offset + 8, ty->size - 8);
+        else if (eightbyte_class(ty, 1) == CLASS_INT)
+          store_gp(gp++, var->offset + 8, ty->size - 8);
         break;
       case TY_FLOAT:
       case TY_DOUBLE:
